@@ -8,7 +8,7 @@ from vlib.core import Infra, ndjson_text
 INTERNAL = {"RP_pick", "CR_done", "UP_next"}
 WNAMES = ['W_LockContention', 'W_KilledAfterAck', 'W_KilledAfterMarker', 'W_KilledBetweenCreateAndWrite', 'W_4xxThenRerun', 'W_5xxThenRerun',
           'W_StaleReadyList', 'W_ReadUnwritten', 'W_BothCreate', 'W_ExclLost', 'W_StatSeesUploaded', 'W_DeletedUnderParse', 'W_LocalExists']
-C07_CLAUSES = {'OneLocalReport', 'DeleteOnlyAfterReport', 'ReportStable', 'Untouched', 'ReadyMatchesLocal'}
+C07_CLAUSES = {'PerBuildSums', 'OneLocalReport', 'DeleteOnlyAfterReport', 'ReportStable', 'Untouched', 'ReadyMatchesLocal'}
 C08_CLAUSES = {'LeftoverRetried', 'NoLockLeft', 'OneBodyPerWeek', 'NoResendAfterRecorded', 'MarkerOnlyAfterAck', 'ReplyHandled'}
 SAFETY = ['LeftoverRetried', 'NoLockLeft', 'ReadyMatchesLocal', 'OneLocalReport', 'OneBodyPerWeek', 'NoResendAfterRecorded', 'MarkerOnlyAfterAck', 'AtMostOneAck']
 ACTIONP = ['DeleteOnlyAfterReport', 'ReportStable', 'ServerErrorKeeps', 'ClientErrorDiscards']
